@@ -21,6 +21,9 @@ pub enum Outcome {
     Exited { status: c_int, hooks_run: bool },
     Killed { sig: c_int },
     Aborted,
+    /// only the calling thread ended (raw SYS_exit): the process goes on
+    ThreadExited { status: c_int },
+    UnmodelledSyscall,
 }
 
 #[derive(Copy, Clone, PartialEq, Eq)]
